@@ -125,3 +125,16 @@ impl StatNode for ResourceNode {
         Ok(Arc::new(stat))
     }
 }
+
+#[cfg(sentinel_verif)]
+impl ResourceNode {
+    /// Verification hook: (ring sample count, ring interval ms, metric sample count, metric interval ms)
+    pub fn verif_geometry(&self) -> (u32, u32, u32, u32) {
+        (
+            self.arr.sample_count(),
+            self.arr.interval_ms(),
+            self.metric.sample_count(),
+            self.metric.interval_ms(),
+        )
+    }
+}
